@@ -170,7 +170,11 @@ CHECKS = {
              "keep their keys and only permute their own tests, the generated feature order puts Shuffle before "
              "Filter/SubProcess/Listing so every mode sees the same order (pipeline theorem over Generated/Facts), "
              "children use the parent's seed; tied to the real Shuffle.global_setup through the recorded index stream "
-             "and to the real spawn/get_options for the seed hand-over.",
+             "and to the real spawn/get_options for the seed hand-over.  Model/Handover is the command line on its way "
+             "to a layer subprocess and back (spawn_layer_in_subprocess composes, Runner.configure takes apart): for every "
+             "layer name, default list and user words the child recovers exactly name, number, defaults and the user's "
+             "words behind the seed option (H_roundtrip, H_roundtrip_seed, H_seed_in_front, H_parent, H_cut_short, guard "
+             "witnessed by H_default_first_witness); tied word for word to the two real functions.",
         note="RNG and float floor trusted (index stream recorded from the real code, bounds asserted); only CPython "
              "3.12.1 available; end-to-end list/run/-j agreement is exercised by the world runs of C03",
         technique="Lean 4 theorems on hand-written model + generated facts + differential correspondence",
